@@ -113,6 +113,8 @@ structure Role where
   pkg : Str
   fn : Str
   callee : Str
+  /-- minimal number of such sites (two scalars are sampled in DKLs23's nonce round) -/
+  min : Nat := 1
   deriving DecidableEq
 
 def requiredRoles : List Role := [
@@ -136,9 +138,9 @@ def requiredRoles : List Role := [
   -- signing nonces and their commitments
   { pkg := cps!"pkg/mpc/signatures/schnorr/lindell22/signing", fn := cps!"Cosigner.Round1", callee := cps!"algebrautils.RandomNonIdentity" },
   { pkg := cps!"pkg/mpc/signatures/schnorr/lindell22/signing", fn := cps!"Cosigner.Round1", callee := cps!"commitments.Commit" },
-  { pkg := cps!"pkg/mpc/signatures/ecdsa/dkls23/signing_bbot", fn := cps!"Cosigner.Round1", callee := cps!"·.Random" },
+  { pkg := cps!"pkg/mpc/signatures/ecdsa/dkls23/signing_bbot", fn := cps!"Cosigner.Round1", callee := cps!"·.Random", min := 2 },
   { pkg := cps!"pkg/mpc/signatures/ecdsa/dkls23/signing_bbot", fn := cps!"Cosigner.Round1", callee := cps!"commitments.Commit" },
-  { pkg := cps!"pkg/mpc/signatures/ecdsa/dkls23/signing_softspoken", fn := cps!"Cosigner.Round3", callee := cps!"·.Random" },
+  { pkg := cps!"pkg/mpc/signatures/ecdsa/dkls23/signing_softspoken", fn := cps!"Cosigner.Round3", callee := cps!"·.Random", min := 2 },
   { pkg := cps!"pkg/mpc/signatures/ecdsa/dkls23/signing_softspoken", fn := cps!"Cosigner.Round3", callee := cps!"commitments.Commit" },
   { pkg := cps!"pkg/mpc/signatures/ecdsa/dkls23/signing_softspoken", fn := cps!"Cosigner.Round2", callee := cps!"io.ReadFull" },
   { pkg := cps!"pkg/mpc/signatures/ecdsa/lindell17/signing", fn := cps!"PrimaryCosigner.Round1", callee := cps!"·.Random" },
@@ -146,7 +148,7 @@ def requiredRoles : List Role := [
   { pkg := cps!"pkg/mpc/signatures/ecdsa/lindell17/signing", fn := cps!"SecondaryCosigner.Round2", callee := cps!"·.Random" },
   { pkg := cps!"pkg/mpc/signatures/ecdsa/lindell17/signing", fn := cps!"CalcC3", callee := cps!"·.Random" },
   { pkg := cps!"pkg/mpc/signatures/ecdsa/lindell17/signing", fn := cps!"CalcC3", callee := cps!"encryption.Encrypt" },
-  { pkg := cps!"pkg/mpc/signatures/ecdsa/cggmp21/signing", fn := cps!"Cosigner.Round1", callee := cps!"algebrautils.RandomNonIdentity" },
+  { pkg := cps!"pkg/mpc/signatures/ecdsa/cggmp21/signing", fn := cps!"Cosigner.Round1", callee := cps!"algebrautils.RandomNonIdentity", min := 2 },
   -- multiplication and OT
   { pkg := cps!"pkg/mpc/rvole/bbot", fn := cps!"Bob.Round2", callee := cps!"io.ReadFull" },
   { pkg := cps!"pkg/mpc/rvole/bbot", fn := cps!"Alice.Round3", callee := cps!"·.Random" },
@@ -163,8 +165,8 @@ def requiredRoles : List Role := [
 ]
 
 def hasRole (r : Role) : Bool :=
-  uses.any fun s => (s.root == .param || s.root == .field) &&
-    s.callee == r.callee && s.fn == r.fn && s.pkg == r.pkg  -- (short, early-differing texts first)
+  r.min ≤ (uses.filter fun s => (s.root == .param || s.root == .field) &&
+    s.callee == r.callee && s.fn == r.fn && s.pkg == r.pkg).length  -- (short, early-differing texts first)
 
 /-- **Every anchored sampling role is still a sampling site** reading from a parameter or a field
     (which `sites_use_party_prng` shows to be the caller-supplied reader). -/
